@@ -150,8 +150,13 @@ public:
         op_counter++;
 
         // Normalize
+        // If A * v0 is (numerically) zero, v0 lies in the null space of A and cannot be
+        // forced into the range of A; in that case use v0 itself as the first basis vector
         const RealScalar vnorm = m_op.norm(v);
-        v /= vnorm;
+        if (vnorm < m_near_0)
+            v.noalias() = v0 / v0norm;
+        else
+            v /= vnorm;
 
         // Compute H and f
         Vector w(m_n);
